@@ -1715,6 +1715,17 @@ impl World for RouterWorld {
             }
         }
         self.oracle_registry(tr, &site, &post);
+        // a successful removePair(x, y) leaves no registry entry for the unordered pair {x, y}, whatever the order the
+        // owner named the tokens in, and removes exactly one entry
+        if ok && w[0] == "removePair" {
+            let (t1, t2) = (pu(w[2]), pu(w[3]));
+            if let Some(e) = post.reg.iter().find(|e| (e.0 == t1 && e.1 == t2) || (e.0 == t2 && e.1 == t1)) {
+                tr.fail("C14", "remove_effective", &site, &format!("removePair({t1},{t2}) succeeded, yet the registry still holds {:?}", e));
+            }
+            if post.reg.len() + 1 != pre.reg.len() {
+                tr.fail("C14", "remove_effective", &site, &format!("registry had {} entries, has {} after a successful removePair", pre.reg.len(), post.reg.len()));
+            }
+        }
         // (c) a pair the owner paused stays Inactive until the owner resumes it
         let owner_state_op = ok && (w[0] == "pause" || w[0] == "resume") && pu(w[1]) == OWNER;
         if !owner_state_op {
